@@ -13,14 +13,16 @@ PROPS = {
     ),
     "C18": dict(
         level="exploration",
-        modules=["specs.registry"],
+        modules=["specs.registry", "specs.devdb"],
         bounded=[("bounded.c18", "run")],
         assumes=["A3", "A6", "A9"],
         trusted=["Registry.match is proved to return the first vendor (registration order) among those owning a matching path with the "
                  "largest number of dots, else the default, and to leave the registry unmodified - relative to vendor.match() / "
                  "HardwareView.match (opaque) and the assumed stable-sort axiom; independence of the registration order additionally "
                  "needs the most specific vendor to be unique, which is a fact about devdb.json decided by the bounded layer",
-                 "find_true_sequences, rulebook rendering / compilation: bounded only",
+                 "find_true_sequences is proved in membership form: for EVERY sequence s, s is returned iff it belongs to a tree node "
+                 "whose whole regex chain matches the model string (relative to re.search); _make_allowed_by_seq / _build_tree "
+                 "(Counter, nested set comprehensions), HardwareLeaf, rulebook rendering / compilation: bounded only",
                  "model strings are synthesised per regex chain (one per devdb sequence): the one non-exhaustive ingredient"],
         rule="exhaustive over the finite configuration space",
     ),
